@@ -76,9 +76,19 @@ PRClocks == IF K <= 6 THEN {Tok(128, 8, X, X, "X"), Tok(128, 13, 0, X, "X"), Tok
 PRDates == IF K <= 6 THEN {Tok(126, 1, 1, 2020, "X"), T0(114)} ELSE {Tok(126, 1, 1, 2020, "X"), Tok(126, 2, 1, 2020, "X"), T0(114)}
 PREnds == {<<c>> : c \in PRClocks} \cup {<<d, c>> : d \in PRDates, c \in PRClocks}
 PodRangeSeqs == {<<p>> \o a \o <<T0(136)>> \o b : p \in PodTokens, a \in PREnds, b \in PREnds}
+\* the same ranges without a part of day, optionally introduced by from/between (101), followed by a date or by "for <duration>":
+\* ruleTODTOD / ruleDateTimeDateTime / ruleDateInterval / ruleIntervalDate / ruleAbsorbFromInterval / ruleIntervalConjDuration
+RGDurs == {Tok(137, 2, X, X, "hours"), Tok(137, 1, X, X, "days"), Tok(137, 90, X, X, "minutes")}
+RGTails == {<<>>} \cup {<<d>> : d \in PRDates} \cup {<<T0(140), u>> : u \in RGDurs} \cup {<<u>> : u \in RGDurs}
+RGHeads == {<<>>, <<T0(101)>>}
+\* <day> <part of day> for <duration> (ruleTimeDuration starts from the value's dt, which for a part of day is its first hour)
+PodDurSeqs == {<<d, p, T0(140), u>> : d \in PRDates, p \in PodTokens, u \in RGDurs}
+              \cup {<<p, d, T0(140), u>> : d \in PRDates, p \in PodTokens, u \in RGDurs}
+              \cup {<<d, p, u>> : d \in PRDates, p \in PodTokens, u \in RGDurs}
+RangeSeqs == {h \o a \o <<T0(136)>> \o b \o t : h \in RGHeads, a \in PREnds, b \in PREnds, t \in RGTails} \cup PodDurSeqs
 
 Alphabet == CASE Fam = "date" -> AlphaDate [] Fam = "clock" -> AlphaClock [] Fam = "dur" -> AlphaDur
-              [] Fam \in {"pod", "podrange"} -> PodTokens \cup ModTokens
+              [] Fam \in {"pod", "podrange", "range"} -> PodTokens \cup ModTokens
 
 SeqsUpTo(S, n) == UNION {[1..k -> S] : k \in 1..n}
 
@@ -87,6 +97,7 @@ Init ==
   /\ IF Fam = "pod"
      THEN \E k \in 0..(K - 1) : \E ms \in [1..k -> ModTokens] : \E p \in PodTokens : prod = ms \o <<p>>
      ELSE IF Fam = "podrange" THEN prod \in PodRangeSeqs
+     ELSE IF Fam = "range" THEN prod \in RangeSeqs
      ELSE prod \in SeqsUpTo(Alphabet, K)
 
 ElemMatches(pe, v) ==
